@@ -512,6 +512,10 @@ static void planCase(long idx, bool withErr) {
     else if (!m->removed && m->suspended && r.chance(1, 2)) { Op s = { K_RESUME, 0, 0, 0 }; execOp(m, s); }
     if (venue != V_OUT || r.chance(7, 10)) pump();
   }
+  // every enumerated plan is consumed completely: plain writes from outside followed by a pump take at least one entry each
+  for (int extra = 0; g_planPos < g_plan.n && !m->removed && extra < 2 * (int)g_plan.n + 6; ++extra) {
+    Op op = { K_WRITE, 0, pickSize(r, cls), 1 }; execOp(m, op); pump(); cnt("plan_tail_writes");
+  }
   bool consumed = g_planPos >= g_plan.n;
   if (consumed) cnt("plans_fully_consumed");
   u64 fp = mix(g_fp, (u64)idx);
@@ -596,7 +600,7 @@ int main(int argc, char** argv) {
   if (!strcmp(md, "plan-exh") || !strcmp(md, "plan-err")) {
     bool withErr = !strcmp(md, "plan-err");
     long total = 3 * (withErr ? pow5sum(0, L - 1) : pow5sum(1, L));
-    long lo = opts.cases < 0 ? 0 : opts.start, hi = opts.cases < 0 ? total : opts.start + opts.cases; if (hi > total) hi = total;
+    long lo = opts.cases < 0 ? 0 : opts.start, hi = opts.cases < 0 ? total : opts.start + opts.cases;   // an explicit range (replay) is not clamped: the decoding is total-independent
     for (long idx = lo; idx < hi; ++idx) { if (!mine(idx)) continue; beginCase(idx); planCase(idx, withErr); }
   } else if (!strcmp(md, "rand") || !strcmp(md, "kernel")) {
     bool kernel = !strcmp(md, "kernel");
